@@ -15,6 +15,10 @@ func impSummaries() {
 	verifOrderInsensitive("isValidAlias")
 }
 
+// canonicalMapOrder: explore one (insertion) order of every map range. Independence of
+// the output from the iteration order is C07's obligation, discharged there over all orders.
+func canonicalMapOrder() { verifMapOrderAll(false) }
+
 // impPath: an arbitrary non-empty import path that is neither a standard-library
 // path of jennifer's table nor the cgo pseudo package.
 func impPath(i int) string {
